@@ -25,6 +25,10 @@ class Gen:
         self.nname = 0
         self.used_onmatch = False
         self.no_headers = False
+        self.tracked = []   # (name, key) of tracking variables assigned so far
+        self.meta = []
+        self.nprint = 0
+        self.adjacent_refs = False
 
     # ---- helpers
     def fresh(self, prefix="v"):
@@ -272,7 +276,7 @@ class Gen:
                 self.used_onmatch = True
                 kind = "gated"
         a = L.assign(L.var(name, quals), rhs)
-        a["_defines"] = (name, kind, bool(quals))
+        a["_defines"] = (name, kind, quals[0] if quals else None)
         return a
 
     def register(self, a):
@@ -281,6 +285,8 @@ class Gen:
             return
         name, kind, tracked = d
         if tracked:
+            if kind != "gated":
+                self.tracked.append((name, tracked))
             return
         # a variable assigned on every evaluated line before later components read it
         if kind == "num":
@@ -333,15 +339,90 @@ class Gen:
             return L.fn("subtotal", self.href(r.choice(strict_any)), self.href(r.choice(strict_num)), quals=[self.fresh("st")])
         raise AssertionError(c)
 
+    # ---- print() with a template of text chunks and references (spec/Print.tla)
+    def template(self):
+        r = self.r
+        CH = "abXY z01 .,;:!-+()<>/|?%&@#^'=*_"
+        items = []
+        n = r.choice([1, 2, 2, 3, 3, 4, 5])
+        prev_ref = False
+        for _ in range(n):
+            if r.random() < 0.5:
+                items.append(self.tref())
+                if prev_ref:
+                    self.adjacent_refs = True
+                prev_ref = True
+            else:
+                ln = r.choice([1, 1, 2, 3, 6])
+                s = "".join(r.choice(CH) for _ in range(ln))
+                if prev_ref and s[0] not in L.SEPARATORS + ".":
+                    s = r.choice(L.SEPARATORS) + s      # a name-like character would extend the reference's name
+                if items and items[-1]["k"] == "text":
+                    items[-1] = L.t_text("".join(chr(c) for c in items[-1]["s"]) + s)
+                else:
+                    items.append(L.t_text(s))
+                prev_ref = False
+        if items and items[0]["k"] == "text" and chr(items[0]["s"][0]) == " ":
+            pass
+        return items
+
+    def tref(self):
+        r = self.r
+        opts = ["csvpath", "csvpath", "undef"]
+        plain = self.numvars + self.anyvars
+        if plain:
+            opts += ["var", "var", "var"]
+        if self.tracked:
+            opts += ["tracked", "tracked"]
+        strict = self.cols({"num", "txt", "numE", "txtE"}, strict=True)
+        if strict:
+            opts += ["hdr", "hdr", "hdr"]
+        if self.meta:
+            opts += ["meta"]
+        opts += ["stack"]
+        c = r.choice(opts)
+        if c == "csvpath":
+            return L.t_ref("csvpath", r.choice(["count_lines", "line_number", "count_matches", "count_scans", "total_lines"]))
+        if c == "undef":
+            return L.t_ref("variables", "nosuchvar")
+        if c == "var":
+            return L.t_ref("variables", r.choice(plain))
+        if c == "tracked":
+            n, k = r.choice(self.tracked)
+            return L.t_ref("variables", n, k if r.random() < 0.8 else "otherkey")
+        if c == "hdr":
+            i = r.choice(strict)
+            if self.fs.named and r.random() < 0.6:
+                return L.t_ref("headers", self.fs.names[i])
+            return L.t_ref("headers", str(i))
+        if c == "meta":
+            return L.t_ref("metadata", r.choice(self.meta)["_k"])
+        return L.t_ref("variables", r.choice(["stk1", "stk2"]), r.choice(["0", "1", "length", "7"]))
+
+    def print_component(self):
+        r = self.r
+        self.nprint += 1
+        quals = []
+        if r.random() < 0.2:
+            quals.append("once")
+        if self.AND and not self.used_onmatch and r.random() < 0.2:
+            quals.append("onmatch")
+            self.used_onmatch = True
+        return L.print_node(self.template(), quals=quals, uid=f"print{self.nprint}")
+
     # ---- one top-level component
     def component(self):
         r = self.r
         opts = ["bool", "bool", "bool", "when", "assign", "assign", "stateful", "stateful"]
+        if "print" in self.groups:
+            opts += ["print", "print", "print", "print"]
         if "control" in self.groups:
             opts += ["control", "control", "control", "last"]
         if "validity" in self.groups:
             opts += ["when", "validity"]
         c = r.choice(opts)
+        if c == "print":
+            return self.print_component()
         if c == "control":
             k = r.choice(["stop", "skip", "advance", "stop0", "skip0"])
             cond = self.boolean(1)
@@ -386,6 +467,10 @@ class Gen:
     def program(self, ncomps=None):
         r = self.r
         n = ncomps or r.choice([1, 1, 2, 2, 3, 3, 4, 5, 6])
+        if "print" in self.groups and r.random() < 0.5:
+            self.meta = [L.meta_field("title", r.choice(["hello", "a b", "x1"]))]
+            if r.random() < 0.5:
+                self.meta.append(L.meta_field("owner", r.choice(["team", "me too"])))
         comps = [self.component() for _ in range(n)]
         if "control" in self.groups and r.random() < 0.35 and not self.used_onmatch:
             # a 'last() ->' component comes last (C01's quantifier): the implementation freezes the
@@ -401,7 +486,7 @@ class Gen:
             comps.append(L.when(L.fn("last"), act))
         first = self.fs.first_data_line()
         sc = self.scan(first)
-        prog = {"scan": sc, "comps": comps}
+        prog = {"scan": sc, "comps": comps, "meta": list(self.meta), "_adjacent_refs": self.adjacent_refs}
         prog["initVars"] = L.init_vars(prog)
         return prog
 
